@@ -369,7 +369,7 @@ impl Property for C17 {
     fn budget(&self, tier: Tier) -> Budget {
         match tier {
             Tier::Quick => Budget { release: 3_600_000, dbg: 1_200_000, workers: 8 },
-            Tier::Thorough => Budget { release: 24_000_000, dbg: 6_000_000, workers: 16 },
+            Tier::Thorough => Budget { release: 120_000_000, dbg: 30_000_000, workers: 16 },
         }
     }
     fn assumptions(&self) -> Vec<String> {
